@@ -256,12 +256,12 @@ Fixpoint xp (fuel : nat) (t : token) : X (list token) :=
           end
       | TInvoke name nsp args =>
           s <= xget ;;
+          xmod (fun s => mkXS (xs_scope s) (S (xs_macro s)) (xs_defs s) (xs_fresh s)) ;;=
           match find_def macros (S (List.length (xs_scope s))) (xs_scope s) name with
           | None => xstop 1%nat
           | Some (params, body) =>
               if negb (Nat.eqb (List.length args) (List.length params)) then xstop 1%nat else
               let sc := macro_scope_name (xs_macro s) in
-              xmod (fun s => mkXS (xs_scope s) (S (xs_macro s)) (xs_defs s) (xs_fresh s)) ;;=
               args' <= (fix go (l : list lexpr) : X (list lexpr) :=
                           match l with [] => xret [] | e :: r => e' <= xsub e ;; r' <= go r ;; xret (e' :: r') end) args ;;
               body' <= x_in_scope sc (xps body) ;;
